@@ -46,6 +46,12 @@ GranularInput == IF "VERIF_GRANULAR" \in DOMAIN IOEnv THEN JsonDeserialize(IOEnv
 ASSUME GranularInput = <<>> \/ PrintT(ToJson([k \in 1..Len(GranularInput) |->
             Granular([moduli |-> {GranularInput[k].moduli[i] : i \in 1..Len(GranularInput[k].moduli)}, style |-> GranularInput[k].style], GranularInput[k].reqs)]))
 
+\* reachability (vacuity guards: each of these must be VIOLATED by the model, i.e. the behaviour is reachable)
+NeverFallsBack == hs.orphans = 0
+NeverClientReport == ~(srv.role = "client" /\ reportShown)
+NeverSsh1Report == ~(hs.sshv = 1 /\ reportShown)
+NeverClientGivesUp == ~(srv.role = "client" /\ pc = "done" /\ exit = 1 /\ nConn["handshake"] = 0)
+
 \* the C12 oracle: terminal state of every fault-free behaviour
 EmitGex == (pc = "done") => PrintT(ToJson([moduli |-> srv.moduli, style |-> srv.style, openssh |-> srv.openssh, gex |-> srv.gex,
                                            asked |-> asked, reported |-> reported, nconn |-> nConn["gex"]]))
